@@ -825,8 +825,8 @@ theorem decode_agrees (reg : List (Str × DecK)) (rb : ReqBody) (ct : Str) (b : 
     | json => cases b.json <;> simp [decodeSimple]
     | plain => simp [decodeSimple]
     | file => simp [decodeSimple]
-    | yaml => cases b.yaml <;> simp
-    | csv => cases b.csv <;> simp
+    | yaml => cases b.yaml <;> simp [decodeSimple]
+    | csv => cases b.csv <;> simp [decodeSimple]
     | multipart => cases decodeMultipart reg s b.parts <;> simp
     | urlencoded =>
       simp only
